@@ -19,7 +19,8 @@ def near_misses(names, rng, limit):
     names = sorted(names)
     for n in names:
         out.update({n.upper(), n.lower(), n.capitalize(), n + " ", " " + n, n[:-1], n + "x", n + "\n", "\t" + n,
-                    n.replace("_", "-"), n.replace("-", "_"), n + "_", n[1:]})
+                    n.replace("_", "-"), n.replace("-", "_"), n + "_", n[1:], n + "@", n + "@1.2.3", n + "@^4", "@" + n, n + "@" + names[0], n + "/", n + ".json",
+                    n + "@ 1", n + ";", n + "#x", n + ","})
     out.update({"", " ", "uno ", "UNO", "Uno", "un\u043e", "ｕｎｏ", "uno\x00", "None", "*", "atmelavr", "atmelmegaavr", "esp32dev"})
     out = sorted(out)
     rng.shuffle(out)
@@ -92,10 +93,11 @@ def main() -> int:
     # ---- project round trip
     n_proj = 1200 if t == "quick" else 6000
     ports = ["COM3", "COM10", "COM27", "COM100", "com12", "~/dev/tty", "/dev/ttyACM0", "/dev/tty.usbmodem-14101", "COM=7", "a:b", "x;y", "p#q", "100%", "%(board)s", "${env.port}",
-             "[env]", "back\\slash", "sp ace", "ünï", "端口", "a=b=c", "--flag", "C:\\dev\\com1", "'q'", '"dq"']
+             "[env]", "back\\slash", "sp ace", "COM{3}", "/dev/tty{{0}}", "}{", "{port}", "{lib_section}", "rfc2217://10.0.0.2:4000", "/dev//ttyUSB0", "/dev/ttyUSB0/", "ünï", "端口", "a=b=c", "--flag", "C:\\dev\\com1", "'q'", '"dq"']
     # (distinct specs that share a library name - a pinned and an unpinned Servo, two git@ URLs - are distinct entries)
     libs_pool = ["Servo", "LiquidCrystal", "LiquidCrystal_I2C", "", None, "Adafruit NeoPixel@^1.0", "owner/Lib", "Servo", "Servo@^1.2.1", "Servo@1.1.8",
-                 "git@github.com:a/b.git", "git@github.com:c/d.git", "https://example.org/lib.zip", "owner/Lib@2.0"]
+                 "git@github.com:a/b.git", "git@github.com:c/d.git", "https://example.org/lib.zip", "owner/Lib@2.0",
+                 "bblanchon/ArduinoJson@>=6.0,<7.0", "Servo,Wire", "name, with comma", "LiquidCrystal_I2C", "LiquidCrystal", "owner/Lib@>1,<3"]
     sources = ["void setup(){}\nvoid loop(){}\n", "", "// ünïcode 端口 \U0001F600\n", "line1\r\nline2\r\n", "no newline at end",
                "\ttabs\t\n\n\n", "#include <Arduino.h>\n" * 50]
     base = Path(tempfile.mkdtemp(prefix="reduverif-c13-"))
@@ -117,6 +119,10 @@ def main() -> int:
         sibling = base / "sibling"
         sibling.mkdir()
         (sibling / "keep.txt").write_text("keep")
+        # neighbours named like the temporary projects target() creates: generating one project never cleans up others
+        for nm in ("reduino-pio-keep", "reduino-pio-", "reduino-pio-0ld1"):
+            (base / nm).mkdir()
+            (base / nm / "platformio.ini").write_text("; someone else's project\n")
         for k in range(n_proj):
             r = rng_for(PROP, sd, "proj", k)
             port = r.choice(ports) if r.random() < 0.6 else "".join(r.choice("abcXYZ0189/:._-=;#%[]$() ü端") for _ in range(r.randint(1, 12))).strip() or "p"
@@ -127,7 +133,7 @@ def main() -> int:
             libs = [r.choice(libs_pool) for _ in range(r.randint(0, 5))]
             libs_arg = None if r.random() < 0.1 else (iter(libs) if r.random() < 0.2 else libs)
             src = r.choice(sources) if r.random() < 0.7 else "".join(chr(r.choice([r.randint(32, 126), r.randint(160, 1000), 10])) for _ in range(r.randint(0, 200)))
-            proj = base / f"proj{k % 7}"
+            proj = base / (f"proj{k % 7}" if k % 3 else f"reduino-pio-{k % 7}x")
             if proj.exists():
                 shutil.rmtree(proj)
             before = dir_snapshot(sibling)
